@@ -262,48 +262,65 @@ Proof. intros. unfold outbound. cbn [cdata]. apply lookup_update_dict; assumptio
 
 (* ... and every version counter incremented once per occurrence among the published leaf paths *)
 Theorem outbound_vers : forall c pub q,
-  getv q (cvers (outbound c pub)) = (getv q (cvers c) + occ q (leaf_paths pub))%N.
+  getv q (cvers (outbound c pub)) = (getv q (cvers c) + occ q (pub_paths pub))%N.
 Proof. intros. unfold outbound. cbn [cvers]. apply getv_bump_all. Qed.
 
 Corollary outbound_vers_untouched : forall c pub q,
-  ~ In q (leaf_paths pub) -> getv q (cvers (outbound c pub)) = getv q (cvers c).
+  ~ In q (pub_paths pub) -> getv q (cvers (outbound c pub)) = getv q (cvers c).
 Proof. intros c pub q H. rewrite outbound_vers, occ_zero_notin by assumption. lia. Qed.
 
 Corollary outbound_vers_bumped : forall c pub q,
-  In q (leaf_paths pub) -> (getv q (cvers c) < getv q (cvers (outbound c pub)))%N.
+  In q (pub_paths pub) -> (getv q (cvers c) < getv q (cvers (outbound c pub)))%N.
 Proof. intros c pub q H. rewrite outbound_vers. pose proof (occ_pos_In _ _ H). lia. Qed.
 
 Corollary outbound_vers_exact : forall c pub q,
-  NoDup (leaf_paths pub) -> In q (leaf_paths pub) ->
+  NoDup (pub_paths pub) -> In q (pub_paths pub) ->
   getv q (cvers (outbound c pub)) = (getv q (cvers c) + 1)%N.
 Proof. intros c pub q ND H. rewrite outbound_vers, occ_nodup_In by assumption. reflexivity. Qed.
 
-(* leaf paths vs navigation *)
-Lemma leaf_paths_v_dict : forall p d,
-  leaf_paths_v p (VDict d) = flat_map (fun kv => leaf_paths_v (join_path p (fst kv)) (snd kv)) d.
+(* published paths vs navigation *)
+Lemma pub_paths_v_dict : forall p d,
+  pub_paths_v p (VDict d) = p :: flat_map (fun kv => pub_paths_v (join_path p (fst kv)) (snd kv)) d.
 Proof.
-  intros p d. cbn [leaf_paths_v]. induction d as [|[k v] t IH]; cbn [flat_map fst snd].
+  intros p d. cbn [pub_paths_v]. f_equal. induction d as [|[k v] t IH]; cbn [flat_map fst snd].
   - reflexivity.
   - rewrite IH. reflexivity.
 Qed.
 
-Lemma leaf_path_of_leaf : forall ks p v x,
-  at_path ks v = Some x -> is_dict x = false -> In (path_str p ks) (leaf_paths_v p v).
+Lemma pub_paths_v_self : forall p v, In p (pub_paths_v p v).
+Proof. intros p v. destruct v; left; reflexivity. Qed.
+
+Lemma pub_paths_v_child : forall p d k v,
+  lookup k d = Some v -> incl (pub_paths_v (join_path p k) v) (pub_paths_v p (VDict d)).
 Proof.
-  induction ks as [|k t IH]; intros p v x H Hx; cbn [at_path path_str] in *.
-  - inversion H; subst. destruct x; try (left; reflexivity). discriminate.
-  - destruct v; try discriminate. destruct (lookup k d) eqn:E; try discriminate.
-    rewrite leaf_paths_v_dict. apply in_flat_map. exists (k, v). split.
-    + apply lookup_In; assumption.
-    + cbn [fst snd]. eapply IH; eassumption.
+  intros p d k v H q Hq. rewrite pub_paths_v_dict. right. apply in_flat_map. exists (k, v). split.
+  - apply lookup_In; assumption.
+  - exact Hq.
 Qed.
 
-Corollary published_leaf_bumped : forall c pub ks x,
-  at_path ks (VDict pub) = Some x -> is_dict x = false ->
-  (getv (path_str "" ks) (cvers c) < getv (path_str "" ks) (cvers (outbound c pub)))%N.
+(* every position reached inside a published value - leaf or dict node - is a bumped path *)
+Lemma pub_path_of_position : forall ks p v x,
+  at_path ks v = Some x -> In (path_str p ks) (pub_paths_v p v).
 Proof.
-  intros c pub ks x H Hx. apply outbound_vers_bumped. unfold leaf_paths.
-  eapply leaf_path_of_leaf; eassumption.
+  induction ks as [|k t IH]; intros p v x H; cbn [at_path path_str] in *.
+  - apply pub_paths_v_self.
+  - destruct v; try discriminate. destruct (lookup k d) eqn:E; try discriminate.
+    eapply pub_paths_v_child; [eassumption|]. eapply IH; eassumption.
+Qed.
+
+Lemma pub_paths_top : forall pub k v,
+  lookup k pub = Some v -> incl (pub_paths_v (join_path "" k) v) (pub_paths pub).
+Proof.
+  intros pub k v H q Hq. unfold pub_paths. apply in_flat_map. exists (k, v). split; [apply lookup_In; assumption | exact Hq].
+Qed.
+
+Corollary published_position_bumped : forall c pub k t x,
+  at_path (k :: t) (VDict pub) = Some x ->
+  (getv (path_str "" (k :: t)) (cvers c) < getv (path_str "" (k :: t)) (cvers (outbound c pub)))%N.
+Proof.
+  intros c pub k t x H. apply outbound_vers_bumped. cbn [at_path path_str] in *.
+  destruct (lookup k pub) eqn:E; try discriminate.
+  eapply pub_paths_top; [eassumption|]. eapply pub_path_of_position; eassumption.
 Qed.
 
 (* ------------------------------------------------------------------ *)
@@ -471,6 +488,9 @@ Proof. intros. rewrite lookup_merge_items by assumption. rewrite H0, H1. reflexi
 (* ------------------------------------------------------------------ *)
 (* context level *)
 
+Lemma join_path_top0 : forall k, join_path "" k = k.
+Proof. reflexivity. Qed.
+
 Lemma at_path_remove : forall d k ks x,
   at_path ks (VDict (remove k d)) = Some x -> at_path ks (VDict d) = Some x \/ ks = [].
 Proof.
@@ -490,28 +510,37 @@ Lemma at_path_update_dict : forall l r k t v,
   at_path (k :: t) (VDict (update_dict l r)) = at_path (k :: t) (VDict r).
 Proof. intros l r k t v ND H. cbn [at_path]. rewrite lookup_update_dict by assumption. rewrite H. reflexivity. Qed.
 
-(* "no non-dict value of [v] strictly above the position [ks]" *)
-Fixpoint shape_ok (ks : list string) (v : value) : Prop :=
-  match ks with
-  | [] => True
-  | k :: t => match v with
-              | VDict d => match lookup k d with None => True | Some v' => shape_ok t v' end
-              | _ => False
-              end
-  end.
+(* the publishing side is strictly newer at the position [p] and at every position below it
+   along [ks] *)
+Fixpoint newer_along (vt vo : vers) (p : string) (ks : list string) : Prop :=
+  (getv p vo < getv p vt)%N /\
+  match ks with [] => True | k :: t => newer_along vt vo (join_path p k) t end.
 
-(* the side that published the leaf (strictly higher version at the leaf path) is on the left *)
+(* the other side is nowhere newer than [vc] along the same positions *)
+Fixpoint not_newer_along (vo vc : vers) (p : string) (ks : list string) : Prop :=
+  (getv p vo <= getv p vc)%N /\
+  match ks with [] => True | k :: t => not_newer_along vo vc (join_path p k) t end.
+
+Lemma not_newer_along_all : forall vo vc p ks,
+  (forall q, (getv q vo <= getv q vc)%N) -> not_newer_along vo vc p ks.
+Proof.
+  intros vo vc p ks H. revert p. induction ks as [|k t IH]; intros p; cbn [not_newer_along]; split; auto.
+Qed.
+
+(* the side that published the leaf is on the left *)
 Lemma fresh_left_wins : forall vt vo ks p tv ov x,
   wf_value ov ->
-  at_path ks tv = Some x -> is_dict x = false -> shape_ok ks ov ->
-  (getv (path_str p ks) vo < getv (path_str p ks) vt)%N ->
+  at_path ks tv = Some x -> is_dict x = false -> newer_along vt vo p ks ->
   at_path ks (merge_val vt vo p tv ov) = Some x.
 Proof.
-  intros vt vo. induction ks as [|k t IH]; intros p tv ov x Hw Hx Hd Hs Hv; cbn [at_path path_str shape_ok] in *.
+  intros vt vo. induction ks as [|k t IH]; intros p tv ov x Hw Hx Hd [Hv Hn]; cbn [at_path] in *.
   - inversion Hx; subst. rewrite merge_val_leaf by (rewrite Hd; reflexivity).
     destruct (N.ltb_spec (getv p vt) (getv p vo)); [lia | reflexivity].
-  - destruct tv as [| | | | |td]; try discriminate. destruct ov as [| | | | |od]; try contradiction.
+  - destruct tv as [| | | | |td]; try discriminate.
     destruct (lookup k td) as [tv'|] eqn:Et; try discriminate.
+    destruct ov as [| | | | |od];
+      try (rewrite merge_val_leaf by (apply andb_false_r);
+           destruct (N.ltb_spec (getv p vt) (getv p vo)); [lia|]; cbn [at_path]; rewrite Et; assumption).
     rewrite merge_val_dict. cbn [at_path]. rewrite lookup_merge_items by (apply wf_dict_nodup; assumption).
     rewrite Et. destruct (lookup k od) as [ov'|] eqn:Eo; cbn [pick_val].
     + apply IH; try assumption. eapply wf_dict_elem; eassumption.
@@ -521,61 +550,79 @@ Qed.
 (* ... or on the right *)
 Lemma fresh_right_wins : forall vt vo ks p tv ov x,
   wf_value tv ->
-  at_path ks tv = Some x -> is_dict x = false -> shape_ok ks ov ->
-  (getv (path_str p ks) vo < getv (path_str p ks) vt)%N ->
+  at_path ks tv = Some x -> is_dict x = false -> newer_along vt vo p ks ->
   at_path ks (merge_val vo vt p ov tv) = Some x.
 Proof.
-  intros vt vo. induction ks as [|k t IH]; intros p tv ov x Hw Hx Hd Hs Hv; cbn [at_path path_str shape_ok] in *.
+  intros vt vo. induction ks as [|k t IH]; intros p tv ov x Hw Hx Hd [Hv Hn]; cbn [at_path] in *.
   - inversion Hx; subst. rewrite merge_val_leaf by (rewrite Hd; apply andb_false_r).
     destruct (N.ltb_spec (getv p vo) (getv p vt)); [reflexivity | lia].
-  - destruct tv as [| | | | |td]; try discriminate. destruct ov as [| | | | |od]; try contradiction.
+  - destruct tv as [| | | | |td]; try discriminate.
     destruct (lookup k td) as [tv'|] eqn:Et; try discriminate.
+    destruct ov as [| | | | |od];
+      try (rewrite merge_val_leaf by reflexivity;
+           destruct (N.ltb_spec (getv p vo) (getv p vt)); [|lia]; cbn [at_path]; rewrite Et; assumption).
     rewrite merge_val_dict. cbn [at_path]. rewrite lookup_merge_items by (apply wf_dict_nodup; assumption).
     rewrite Et. destruct (lookup k od) as [ov'|] eqn:Eo; cbn [pick_val].
     + apply IH; try assumption. eapply wf_dict_elem; eassumption.
     + assumption.
 Qed.
 
-Lemma shape_ok_remove : forall ks d k, shape_ok ks (VDict d) -> shape_ok ks (VDict (remove k d)).
+(* publishing makes the publisher strictly newer along the whole position *)
+Lemma newer_along_bumped : forall vt vo vc ks p v x,
+  at_path ks v = Some x ->
+  (forall q, In q (pub_paths_v p v) -> (getv q vc < getv q vt)%N) ->
+  not_newer_along vo vc p ks -> newer_along vt vo p ks.
 Proof.
-  intros ks d k H. destruct ks as [|k0 t]; cbn [shape_ok] in *; auto.
-  rewrite lookup_remove. destruct (String.eqb k k0); auto.
+  intros vt vo vc. induction ks as [|k t IH]; intros p v x Hx Hb [Hle Hn]; cbn [newer_along at_path] in *.
+  - split; [|exact I]. pose proof (Hb p (pub_paths_v_self p v)). lia.
+  - split; [pose proof (Hb p (pub_paths_v_self p v)); lia|].
+    destruct v; try discriminate. destruct (lookup k d) eqn:E; try discriminate.
+    eapply IH; [eassumption | | assumption].
+    intros q Hq. apply Hb. eapply pub_paths_v_child; eassumption.
 Qed.
 
-(* A leaf value published by a task (at any depth) survives a merge, in either
-   argument order, with ANY context whose version at that leaf path is not above the
-   task's inbound version (an "inherited copy"), provided the other context has no
-   scalar strictly above the leaf position. *)
+(* A leaf value published by a task (at ANY depth, whatever shape the variable had before)
+   survives a merge, in either argument order, with ANY context that is not newer than the
+   task's inbound context along the position of the leaf (an "inherited copy"). *)
 Theorem no_stale_overwrite : forall c pub o k t x,
   wf_ctx c -> wf_value (VDict pub) -> wf_ctx o ->
   k <> TASK_EXECUTION_KEY ->
   at_path (k :: t) (VDict pub) = Some x -> is_dict x = false ->
-  (getv (path_str "" (k :: t)) (cvers o) <= getv (path_str "" (k :: t)) (cvers c))%N ->
-  shape_ok (k :: t) (VDict (cdata o)) ->
+  not_newer_along (cvers o) (cvers c) (join_path "" k) t ->
   at_path (k :: t) (VDict (cdata (merge_ctx (outbound c pub) o))) = Some x /\
   at_path (k :: t) (VDict (cdata (merge_ctx o (outbound c pub)))) = Some x.
 Proof.
-  intros c pub o k t x Hc Hp Ho Hk Hx Hd Hv Hs.
-  pose proof (published_leaf_bumped c pub (k :: t) x Hx Hd) as Hb.
+  intros c pub o k t x Hc Hp Ho Hk Hx Hd Hv.
   assert (Hout : at_path (k :: t) (VDict (remove TASK_EXECUTION_KEY (cdata (outbound c pub)))) = Some x).
   { rewrite at_path_remove_other by assumption. unfold outbound; cbn [cdata].
     cbn [at_path] in Hx. destruct (lookup k pub) eqn:E; try discriminate.
     erewrite at_path_update_dict; [| apply wf_dict_nodup; assumption | eassumption].
     cbn [at_path]. rewrite E. assumption. }
   pose proof (wf_outbound c pub Hc Hp) as [Hwo _]. destruct Ho as [Hod Hov].
-  unfold merge_ctx; cbn [cdata]. rewrite <- !merge_val_dict. split.
-  - apply fresh_left_wins; try assumption.
-    + apply wf_remove; assumption.
-    + apply shape_ok_remove; assumption.
-    + lia.
-  - apply fresh_right_wins; try assumption.
-    + apply wf_remove; assumption.
-    + apply shape_ok_remove; assumption.
-    + lia.
+  (* both data parts are dicts: descend one level by hand, then use the value lemmas *)
+  cbn [at_path] in Hx. destruct (lookup k pub) as [pv|] eqn:Epub; try discriminate.
+  assert (Hnew : newer_along (cvers (outbound c pub)) (cvers o) (join_path "" k) t).
+  { eapply newer_along_bumped; [eassumption | | eassumption].
+    intros q Hq. apply outbound_vers_bumped. eapply pub_paths_top; eassumption. }
+  assert (Lout : lookup k (remove TASK_EXECUTION_KEY (cdata (outbound c pub))) = Some pv).
+  { rewrite lookup_remove. destruct (String.eqb TASK_EXECUTION_KEY k) eqn:E;
+      [apply String.eqb_eq in E; subst; contradiction|].
+    unfold outbound; cbn [cdata]. rewrite lookup_update_dict by (apply wf_dict_nodup; assumption).
+    rewrite Epub. reflexivity. }
+  assert (Wpv : wf_value pv) by exact (wf_dict_elem pub k pv Hp Epub).
+  unfold merge_ctx; cbn [cdata at_path]. split.
+  - rewrite lookup_merge_items by (apply nodup_remove; apply wf_dict_nodup; assumption).
+    rewrite Lout. destruct (lookup k (remove TASK_EXECUTION_KEY (cdata o))) as [ov|] eqn:Eo; cbn [pick_val].
+    + apply fresh_left_wins; try assumption.
+      exact (wf_dict_elem _ k ov (wf_remove _ TASK_EXECUTION_KEY Hod) Eo).
+    + assumption.
+  - rewrite lookup_merge_items by (apply nodup_remove; apply wf_dict_nodup; assumption).
+    rewrite Lout. destruct (lookup k (remove TASK_EXECUTION_KEY (cdata o))) as [ov|] eqn:Eo; cbn [pick_val].
+    + apply fresh_right_wins; assumption.
+    + assumption.
 Qed.
 
-(* flat case: a scalar (or list) published under a top-level variable is never
-   replaced, whatever the other context holds under that variable *)
+(* top-level variables: a scalar (or list) published under a variable is never replaced *)
 Corollary no_stale_overwrite_flat : forall c pub o k x,
   wf_ctx c -> wf_value (VDict pub) -> wf_ctx o ->
   k <> TASK_EXECUTION_KEY ->
@@ -587,11 +634,23 @@ Proof.
   intros c pub o k x Hc Hp Ho Hk Hx Hd Hv.
   destruct (no_stale_overwrite c pub o k [] x Hc Hp Ho Hk) as [H1 H2]; try assumption.
   - cbn [at_path]. rewrite Hx. reflexivity.
-  - cbn [shape_ok]. destruct (lookup k (cdata o)); exact I.
+  - cbn [not_newer_along]. rewrite join_path_top0. split; [assumption | exact I].
   - cbn [at_path] in H1, H2.
     destruct (lookup k (cdata (merge_ctx (outbound c pub) o))); try discriminate.
     destruct (lookup k (cdata (merge_ctx o (outbound c pub)))); try discriminate.
     inversion H1; inversion H2; subst. split; reflexivity.
+Qed.
+
+(* inherited copy in the plain sense: nowhere newer than the publisher's inbound context *)
+Corollary no_stale_overwrite_inherited : forall c pub o k t x,
+  wf_ctx c -> wf_value (VDict pub) -> wf_ctx o ->
+  k <> TASK_EXECUTION_KEY ->
+  at_path (k :: t) (VDict pub) = Some x -> is_dict x = false ->
+  (forall q, (getv q (cvers o) <= getv q (cvers c))%N) ->
+  at_path (k :: t) (VDict (cdata (merge_ctx (outbound c pub) o))) = Some x /\
+  at_path (k :: t) (VDict (cdata (merge_ctx o (outbound c pub)))) = Some x.
+Proof.
+  intros. apply no_stale_overwrite; try assumption. apply not_newer_along_all; assumption.
 Qed.
 
 (* concrete values: decide well-formedness by computation *)
@@ -606,28 +665,27 @@ Ltac solve_wf :=
         intros k v HI; cbn in HI;
         repeat (destruct HI as [HI|HI]; [inversion HI; subst; clear HI|]); try contradiction ] ].
 
-(* Without the shape hypothesis the statement is FALSE for the code's algorithm: a
-   variable that was a scalar upstream and is re-published as a dict inside one branch
-   is replaced at the join by the scalar the other branch merely inherited, when that
-   other branch is the base of the merge (last row of the upstream list). *)
+(* Regression witness of the former defect (a variable that was a scalar upstream is
+   re-published as a dict in one branch, the other branch only inherits the scalar): with the
+   dict node's own path versioned, both merge orders keep the published leaf. *)
 Definition stale_c : ctx := outbound empty_ctx [("a", VNum 1)].
 Definition stale_pub : dict := [("a", VDict [("b", VNum 2)])].
 
-Theorem no_stale_overwrite_nested_refuted :
-  exists c pub o k t x,
-    wf_ctx c /\ wf_value (VDict pub) /\ wf_ctx o /\ k <> TASK_EXECUTION_KEY /\
-    at_path (k :: t) (VDict pub) = Some x /\ is_dict x = false /\
-    (getv (path_str "" (k :: t)) (cvers o) <= getv (path_str "" (k :: t)) (cvers c))%N /\
-    at_path (k :: t) (VDict (cdata (merge_ctx o (outbound c pub)))) <> Some x /\
-    (* and the outcome depends on the argument order *)
-    at_path (k :: t) (VDict (cdata (merge_ctx (outbound c pub) o))) = Some x.
+Lemma wf_stale_c : wf_ctx stale_c.
+Proof. apply wf_outbound; [constructor; cbn; [solve_wf | constructor] | solve_wf]. Qed.
+
+Lemma former_stale_witness_clean :
+  at_path ["a"; "b"] (VDict (cdata (merge_ctx stale_c (outbound stale_c stale_pub)))) = Some (VNum 2) /\
+  at_path ["a"; "b"] (VDict (cdata (merge_ctx (outbound stale_c stale_pub) stale_c))) = Some (VNum 2).
 Proof.
-  assert (W : wf_ctx stale_c).
-  { apply wf_outbound; [constructor; cbn; [solve_wf | constructor] | solve_wf]. }
-  exists stale_c, stale_pub, stale_c, "a", ["b"], (VNum 2).
-  split; [exact W|]. split; [unfold stale_pub; solve_wf|]. split; [exact W|].
-  split; [discriminate|]. split; [reflexivity|]. split; [reflexivity|].
-  split; [vm_compute; discriminate|]. split; [vm_compute; discriminate | vm_compute; reflexivity].
+  apply (no_stale_overwrite_inherited stale_c stale_pub stale_c "a" ["b"] (VNum 2)).
+  - apply wf_stale_c.
+  - unfold stale_pub. solve_wf.
+  - apply wf_stale_c.
+  - discriminate.
+  - reflexivity.
+  - reflexivity.
+  - intros q. lia.
 Qed.
 
 (* ------------------------------------------------------------------ *)
@@ -1026,9 +1084,9 @@ Proof. intros c k Hc. rewrite den_merge_ctx_flat; try apply Hc. apply dmerge_ide
 Definition flat_dict (d : dict) : Prop := forall k v, lookup k d = Some v -> is_dict v = false.
 Definition supported (c : ctx) : Prop := forall k, cell_ok (den c k).
 
-Lemma leaf_paths_flat : forall d, NoDup (map fst d) -> flat_dict d -> leaf_paths d = map fst d.
+Lemma pub_paths_flat : forall d, NoDup (map fst d) -> flat_dict d -> pub_paths d = map fst d.
 Proof.
-  unfold leaf_paths. intros d ND Hf. rewrite leaf_paths_v_dict.
+  unfold pub_paths. intros d ND Hf.
   induction d as [|[k v] t IH]; cbn [flat_map map fst snd].
   - reflexivity.
   - cbn [map fst] in ND. inversion ND as [|? ? Hn ND']; subst.
@@ -1056,7 +1114,7 @@ Proof.
   intros c pub Hs Hp Hfp k. pose proof (wf_dict_nodup _ Hp) as ND.
   unfold cell_ok, den; cbn [fst snd]. rewrite outbound_data by assumption. intros H.
   rewrite outbound_vers. destruct (lookup k pub) eqn:E; [discriminate|].
-  pose proof (Hs k H) as H0. cbn [den snd] in H0. rewrite H0. rewrite leaf_paths_flat by assumption.
+  pose proof (Hs k H) as H0. cbn [den snd] in H0. rewrite H0. rewrite pub_paths_flat by assumption.
   rewrite occ_zero_notin; [reflexivity | apply lookup_None_notin; assumption].
 Qed.
 
@@ -1177,9 +1235,9 @@ Qed.
 (* packaged statements used by Properties/C05.v *)
 
 Lemma outbound_vers_exact_both : forall c pub q,
-  NoDup (leaf_paths pub) ->
-  (In q (leaf_paths pub) -> getv q (cvers (outbound c pub)) = (getv q (cvers c) + 1)%N) /\
-  (~ In q (leaf_paths pub) -> getv q (cvers (outbound c pub)) = getv q (cvers c)).
+  NoDup (pub_paths pub) ->
+  (In q (pub_paths pub) -> getv q (cvers (outbound c pub)) = (getv q (cvers c) + 1)%N) /\
+  (~ In q (pub_paths pub) -> getv q (cvers (outbound c pub)) = getv q (cvers c)).
 Proof. intros c pub q ND. split; [apply outbound_vers_exact; assumption | apply outbound_vers_untouched]. Qed.
 
 Lemma good_preserved : forall c pub l r,
